@@ -69,7 +69,7 @@ def main():
         rc_demo, out_demo = sh(f"/venv/bin/python -W ignore {os.path.join(dst, 'demo.py')}", cwd=scratch, env=env)
         ran.append(f"patched tree: demo.py -> exit {rc_demo}: {out_demo.strip().splitlines()[-1][:160] if out_demo.strip() else ''}")
         rc_c, _ = sh("/venv/bin/python -W ignore -m compileall -q src", cwd=scratch, env=env)
-        confirmed = applies and rc_clean == 0 and rc_demo != 0 and "689 passed" in out_t and rc_c == 0 and not any(f"/tmp/wt{k}-" in demo for k in "579BCJ")
+        confirmed = applies and rc_clean == 0 and rc_demo != 0 and "689 passed" in out_t and rc_c == 0 and not any(f"/tmp/wt{k}-" in demo for k in "579BCJL")
         meta["confirmed"] = bool(confirmed)
         if confirmed:
             for pid in (a.checks.split(",") if a.checks else ALL):
